@@ -126,13 +126,15 @@ func cmdCheck(args []string) int {
 		}
 		os.MkdirAll(replayDir, 0o755)
 		rp := filepath.Join(replayDir, fileSan.ReplaceAllString(cfg+"_"+name, "_")+".json")
-		nReplays++
 		var rep *ReplayFile
-		if nReplays > maxReplays {
+		if nReplays >= maxReplays {
 			rep = buildReplay(*repo, *prop, cfg, name, r, nil, reason, nil, scratch)
 			rep.Note = fmt.Sprintf("replay budget of this run (%d executed replays) exhausted; use --replay on this file's obligation after fixing the earlier ones, or run the thorough tier", maxReplays)
 		} else {
 			rep = buildReplay(*repo, *prop, cfg, name, r, u, reason, w, scratch)
+			if rep.TestSource != "" {
+				nReplays++
+			}
 		}
 		writeJSON(rp, rep)
 		line := fmt.Sprintf("VIOLATION property=%s replay=%s", *prop, rp)
